@@ -633,7 +633,7 @@ func runMigration(r *evid.Run) {
 	r.ParallelFor(len(cases), 0, func(i int) {
 		c := cases[i]
 		r.Eval(1)
-		migrateOne(r, c, deps, cov, skips)
+		migrateOne(r, c, deps, cov, skips, i%8 == 0)
 		r.SampleEvery(i, 499, func() any { return m{"kind": "migration", "case": c} })
 	})
 	snap := cov.snapshot()
@@ -648,13 +648,30 @@ func runMigration(r *evid.Run) {
 	}
 }
 
-func migrateOne(r *evid.Run, c MigCase, deps *migDeps, cov, skips *counter) {
+// migrateOne explores one workspace. full also runs the real migrator on the edited copy (otherwise the
+// edited .proto files are placed under the migrated configuration of the original, which is
+// cross-checked to be the same thing on every case with full=true).
+func migrateOne(r *evid.Run, c MigCase, deps *migDeps, cov, skips *counter, full bool) {
 	ctx := context.Background()
 	type state struct {
 		before, after []*modView
 		afterFiles    map[string]string
 	}
 	var st [2]state // 0 old, 1 new (edited copy)
+	migrateBucket := func(files map[string]string) (storage.ReadWriteBucket, map[string]string, bool) {
+		bucket, err := memBucketRW(files)
+		if err != nil {
+			r.Incomplete("migration harness: " + err.Error())
+			return nil, nil, false
+		}
+		migrator := bufmigrate.NewMigrator(bufx.Logger, deps.omni, deps.omni)
+		if err := bufmigrate.MigrateAll(ctx, migrator, bucket, nil); err != nil {
+			r.Violate("migrate/error/"+errClass(err.Error()), "a workspace that builds is rejected by the migrator: "+err.Error(), m{"case": c})
+			return nil, nil, false
+		}
+		after, _ := bucketFiles(ctx, bucket)
+		return bucket, after, true
+	}
 	for k, files := range []map[string]string{c.Old, c.New} {
 		bucket, err := memBucketRW(files)
 		if err != nil {
@@ -668,15 +685,38 @@ func migrateOne(r *evid.Run, c MigCase, deps *migDeps, cov, skips *counter) {
 			return
 		}
 		st[k].before = before
-		migrator := bufmigrate.NewMigrator(bufx.Logger, deps.omni, deps.omni)
-		if err := bufmigrate.MigrateAll(ctx, migrator, bucket, nil); err != nil {
-			r.Violate("migrate/error/"+normaliseErr(err.Error()), "a workspace that builds is rejected by the migrator: "+err.Error(), m{"case": c})
-			return
+		var migrated storage.ReadBucket
+		if k == 0 || full {
+			b, after, ok := migrateBucket(files)
+			if !ok {
+				return
+			}
+			migrated, st[k].afterFiles = b, after
+			if k == 1 {
+				// the migrator only reads configuration files: the migrated configuration of the edited
+				// copy must be the one of the original (this is what lets the other cases skip this run)
+				if fmt.Sprint(configFiles(st[0].afterFiles)) != fmt.Sprint(configFiles(after)) {
+					r.Incomplete("migration harness: migrated configuration depends on .proto content for case " + c.Key)
+					return
+				}
+				cov.add("second_migration_cross_checked", 1)
+			}
+		} else {
+			// edited copy: the new .proto files under the migrated configuration files of the original
+			st[k].afterFiles = map[string]string{}
+			for p, text := range files {
+				if strings.HasSuffix(p, ".proto") {
+					st[k].afterFiles[p] = text
+				}
+			}
+			for p, text := range configFiles(st[0].afterFiles) {
+				st[k].afterFiles[p] = text
+			}
+			migrated = bufx.MemBucket(st[k].afterFiles)
 		}
-		st[k].afterFiles, _ = bucketFiles(ctx, bucket)
-		after, _, err := viewWorkspace(ctx, bucket, deps)
+		after, _, err := viewWorkspace(ctx, migrated, deps)
 		if err != nil {
-			r.Violate("migrate/workspace-after/"+normaliseErr(err.Error()), "the migrated workspace does not build: "+err.Error(), m{"case": c, "migrated": configFiles(st[k].afterFiles)})
+			r.Violate("migrate/workspace-after/"+errClass(err.Error()), "the migrated workspace does not build: "+err.Error(), m{"case": c, "migrated": configFiles(st[k].afterFiles)})
 			return
 		}
 		st[k].after = after
@@ -760,7 +800,7 @@ func migrateOne(r *evid.Run, c MigCase, deps *migDeps, cov, skips *counter) {
 			if len(lb.anns) > 0 {
 				cov.add("lint_nonempty_before", 1)
 			}
-			reportCheckDiff(r, "lint", dir, lb, la, c, migrated)
+			reportCheckDiff(r, "lint", dir, lb, la, c, migrated, disabledFlip(oldBefore[dir], oldAfter[dir], func(mv *modView) bool { return mv.lintCfg.Disabled() }))
 		}
 		// 4. breaking (new against old)
 		bb, ba := breakingGroup(ctx, newBefore[dir], oldBefore[dir]), breakingGroup(ctx, newAfter[dir], oldAfter[dir])
@@ -772,7 +812,7 @@ func migrateOne(r *evid.Run, c MigCase, deps *migDeps, cov, skips *counter) {
 			if len(bb.anns) > 0 {
 				cov.add("breaking_nonempty_before", 1)
 			}
-			reportCheckDiff(r, "breaking", dir, bb, ba, c, migrated)
+			reportCheckDiff(r, "breaking", dir, bb, ba, c, migrated, disabledFlip(newBefore[dir], newAfter[dir], func(mv *modView) bool { return mv.brkCfg.Disabled() }))
 		}
 		for _, mv := range oldBefore[dir] {
 			if mv.lintCfg.Disabled() {
@@ -786,7 +826,16 @@ func migrateOne(r *evid.Run, c MigCase, deps *migDeps, cov, skips *counter) {
 }
 
 // reportCheckDiff compares the results of a check before and after migration.
-func reportCheckDiff(r *evid.Run, kind, dir string, before, after checkResult, c MigCase, migrated map[string]string) {
+func reportCheckDiff(r *evid.Run, kind, dir string, before, after checkResult, c MigCase, migrated map[string]string, disabledBecameEnabled bool) {
+	if disabledBecameEnabled {
+		// the structural cause is known: name the defect, not the annotations it happens to produce
+		if before.String() != after.String() {
+			r.Violate("migrate/"+kind+"/switched-off-check-enabled-by-migration",
+				fmt.Sprintf("module %s: %s was switched off for the module (ignore names the module itself, Disabled()==true) and is enabled after migration; results before %q after %q", dir, kind, clip(before.String()), clip(after.String())),
+				m{"case": c, "migrated": migrated, "before": before.String(), "after": after.String()})
+		}
+		return
+	}
 	if after.err != "" {
 		r.Violate("migrate/"+kind+"/error-after/"+errClass(after.err),
 			fmt.Sprintf("module %s: %s worked before migration (%d annotations) and fails after it: %s", dir, kind, len(before.anns), after.err),
@@ -834,6 +883,33 @@ func reportCheckDiff(r *evid.Run, kind, dir string, before, after checkResult, c
 	r.Violate(fmt.Sprintf("migrate/%s/annotations-%s/%s", kind, dirn, strings.Join(idList, "+")),
 		fmt.Sprintf("module %s: %s results differ after migration: lost %v gained %v", dir, kind, lost, gained),
 		m{"case": c, "migrated": migrated, "before": before.String(), "after": after.String()})
+}
+
+// disabledFlip reports whether some module's check config was Disabled() before migration while
+// no module of the group is disabled afterwards.
+func disabledFlip(before, after []*modView, disabled func(*modView) bool) bool {
+	was := false
+	for _, mv := range before {
+		if disabled(mv) {
+			was = true
+		}
+	}
+	if !was {
+		return false
+	}
+	for _, mv := range after {
+		if disabled(mv) {
+			return false
+		}
+	}
+	return true
+}
+
+func clip(s string) string {
+	if len(s) > 300 {
+		return s[:300] + "..."
+	}
+	return s
 }
 
 // errClass maps an error of the check client to a stable class.
